@@ -147,7 +147,10 @@ def quad_sum_of_squares(t):
     """einsum('...nd,...nd->...n', w, w) with the same operand twice"""
     t = peel(t)
     if not is_call_to(t, 'numpy.einsum'):
-        return None
+        # np.sum(w ** 2, axis=-1) / np.sum(np.square(w), -1) / np.sum(w * w, -1)
+        from ..walk import last_axis_product_sum
+        lp = last_axis_product_sum(t) if is_call_to(t, 'numpy.sum') else None
+        return lp[0] if lp is not None and lp[0] is lp[1] and not lp[2] else None
     _, pos, _ = call_parts(t)
     if len(pos) == 3 and pos[1] is pos[2]:
         return pos[1]
@@ -194,6 +197,28 @@ def check_gaussians(ck):
                                   'the difference is DIVIDED by self.precision_cholesky (= 1 / sigma): the Mahalanobis term is that of the inverse covariance while the '
                                   'log-determinant term is not - the density is not the named Gaussian and ranks the classes the wrong way round',
                                   construct=f'R-EIN::{q}::whitening-direction')
+                        continue
+            if (not ws or not ws[0].parsed) and n_prec_letters == 2:
+                # whitening written as a matrix product: difference @ P contracts the ROW index of P, (P @ difference[..., None]) its column index
+                w0 = strip_views(white)
+                if w0.op == 'binop' and w0.args[0] == 'MatMult':
+                    l_, r_ = peel(w0.args[1]), peel(w0.args[2])
+                    is_pc = lambda z: any(self_field(x, 'precision_cholesky') for x in walk_terms(z, into_mu=False))
+                    is_df = lambda z: isinstance(z, T) and z.op == 'binop' and z.args[0] in ('Sub', 'Add')
+                    if is_df(l_) and is_pc(r_) and not is_pc(l_):
+                        ck.resolved += 1
+                        okd = l_.args[0] == 'Sub' and ein.derives_from_param(l_.args[1], 'y') and any(self_field(x, 'mean') for x in walk_terms(l_.args[2]))
+                        run.check(okd, 'R-EIN', f'{cname}.log_pdf: whitened quantity is y - mean', fn.loc(w0.node), '', 'the whitened operand is not (y - self.mean[..., None, :])',
+                                  construct=f'R-EIN::{q}::difference')
+                        conv = stored_factor_convention(A, D + 'gaussian::Gaussian.__post_init__')
+                        if conv is None:
+                            raise AnalysisError('Gaussian.__post_init__: how the stored precision Cholesky factor is computed is no longer recognised')
+                        transposed = strip_views(r_).op == 'attr' and strip_views(r_).args[1] == 'T' or is_call_to(strip_views(r_), 'numpy.swapaxes', 'numpy.transpose')
+                        contracts = 'column' if transposed else 'row'
+                        want = 'row' if conv == 'upper' else 'column'
+                        run.check(contracts == want, 'R-EIN', f'Gaussian.log_pdf: whitening contracts the {want.upper()} index of the stored ({conv}) precision Cholesky factor', fn.loc(w0.node), '',
+                                  f'`difference @ P{".T" if transposed else ""}` contracts the {contracts} index of the stored {conv} factor: the density evaluated is that of a transposed '
+                                  f'covariance factor', construct=f'R-EIN::{q}::cholesky-row')
                         continue
             if not ws or not ws[0].parsed:
                 run.unresolved('R-EIN', f'{cname}.log_pdf: whitening contraction', fn.loc(), 'whitening einsum not found')
@@ -268,7 +293,13 @@ def check_gaussians(ck):
         want = {'Gaussian': ('full', 'full'), 'DiagonalGaussian': ('diag', 'diag'), 'SphericalGaussian': ('diag', 'spherical')}[cname]
         calls = {call_parts(e.term)[0].split('.')[-1]: e.term for e in pg.events if e.kind == 'call' and call_parts(e.term)[0] and 'sklearn' in call_parts(e.term)[0]}
         pc, ld = calls.get('_compute_precision_cholesky'), calls.get('_compute_log_det_cholesky')
-        if pc is None or ld is None:
+        if pc is None and ld is not None and cname == 'Gaussian' and stored_factor_convention(A, pq) is not None:
+            # the factor is computed with numpy in a recognised convention (checked against the whitening contraction above); the log-determinant still comes from it
+            ck.resolved += 1
+            cov_ok = any(self_field(x, 'covariance') for x in walk_terms(call_arg(ld, 0)))
+            run.check(const_val(call_arg(ld, 1)) == want[1] and cov_ok, 'R-DEP', f'{cname}.__post_init__: log-det of the factor computed from the stored covariance', A.prog.func(pq).loc(ld.node), '',
+                      'the log-determinant is not taken of the precision factor of self.covariance with the matching covariance type', construct=f'R-DEP::{pq}::sklearn-helpers')
+        elif pc is None or ld is None:
             run.unresolved('R-DEP', f'{cname}.__post_init__: scikit-learn helpers', A.prog.func(pq).loc(), 'helper calls not found')
         else:
             ck.resolved += 1
@@ -294,10 +325,12 @@ def check_ccsg(ck):
 
         def is_logdet(f):
             f = peel(f)
-            return isinstance(f, T) and f.op == 'sub' and is_call_to(f.args[0], 'numpy.linalg.slogdet')
+            # slogdet(...)[1] / slogdet(...)[-1] / `_, logdet = slogdet(...)`
+            return isinstance(f, T) and ((f.op == 'sub' and is_call_to(f.args[0], 'numpy.linalg.slogdet')) or
+                                         (f.op == 'unpack' and f.args[3] is None and is_call_to(strip_views(f.args[0]), 'numpy.linalg.slogdet')))
         r = ck.term(q, alt, '-log|det covariance|', is_logdet, -1, exact_coef=1.0)
         if r is not None:
-            idx = const_val(peel(r[1]).args[1])
+            idx = const_val(peel(r[1]).args[1]) if peel(r[1]).op == 'sub' else peel(r[1]).args[1]
             run.check(idx in (-1, 1), 'R-LIN', 'ComplexCircularSymmetricGaussian.log_pdf: slogdet component is the log-magnitude', fn.loc(r[1].node), f'index {idx}',
                       f'slogdet(...)[{idx}] is the sign, not the logarithm of the determinant', construct=f'R-LIN::{q}::slogdet-index')
 
@@ -402,6 +435,31 @@ def check_watson(ck):
             run.check(ok, 'R-EIN', 'ComplexWatson.log_pdf: |w^H z|^2 of one inner product over the feature axis', fn.loc(e1.node), '',
                       'real and imaginary squares are not taken of the same feature-axis inner product of y with the (conjugated) mode', construct=f'R-EIN::{q}::inner-product')
         ck.term(q, alt, '-log normaliser', lambda f: is_call_to(peel(f), 'method:log_norm'), -1, exact_coef=1.0)
+    # what the concentration multiplies is the squared MAGNITUDE of the inner product, in any spelling (re^2 + im^2, abs() ** 2, (x conj(x)).real); the bare
+    # (complex) inner product or its real part there is a recognised deviation, not an unknown form
+    from ..walk import abs_square_operand
+    for t_ in walk_terms(g.ret):
+        if t_.op in ('binop', 'iop') and t_.args[0] == 'Mult':
+            for u, v in ((t_.args[1], t_.args[2]), (t_.args[2], t_.args[1])):
+                if self_field(peel(u), 'concentration'):
+                    y_ = peel(v)
+                    sq = abs_square_operand(y_)
+                    inner_ok = sq is not None and is_call_to(strip_views(sq), 'numpy.einsum')
+                    ck.resolved += 1
+                    run.check(inner_ok, 'R-LIN', 'ComplexWatson.log_pdf: the concentration multiplies |w^H z|^2', fn.loc(t_.node), '',
+                              'the factor of the concentration is not the squared magnitude of the inner product of y with the mode', construct=f'R-LIN::{q}::squared-magnitude')
+                    if inner_ok:
+                        # decided in this form: the re^2 / im^2 atoms of the expanded spelling are not needed
+                        for aid in list(ck.missing):
+                            ck.missing[aid] = [it for it in ck.missing[aid] if not (it[0] == q and it[1].startswith('+kappa * '))]
+                        s_ = [s_ for s_ in ein.find_sites(A, q) if s_.term is strip_views(sq)]
+                        if s_:
+                            info = ein.operand_info(s_[0])
+                            st = ein.structure(s_[0])
+                            modes = [i for i, (b, cj, raw) in enumerate(info) if any(self_field(x, 'mode') for x in walk_terms(raw))]
+                            oke = len(info) == 2 and len(modes) == 1 and st['ins'][0][-1] == st['ins'][1][-1] and st['ins'][0][-1] not in st['out']
+                            run.check(oke, 'R-EIN', 'ComplexWatson.log_pdf: |w^H z|^2 of one inner product over the feature axis', fn.loc(s_[0].term.node), '',
+                                      'the inner product is not a contraction of y with the mode over the feature axis', construct=f'R-EIN::{q}::inner-product')
     # log_norm: 1F1(1; D; kappa) * 2 pi^D / (D-1)!  evaluated at the stored concentration and the mode's feature dimension
     q = D + 'complex_watson::ComplexWatson.log_norm'
     g = ck.graph(q)
@@ -499,13 +557,20 @@ def check_bingham(ck):
     c, fs = product_factors(ret)
     ok_c = abs(c - 2.0) < 1e-12
     pows = [f for f in fs if peel(f).op == 'binop' and peel(f).args[0] == 'Pow' and is_pi(peel(f).args[1])]
-    sums = [f for f in fs if is_call_to(peel(f), 'numpy.sum')]
+    from ..walk import last_axis_product_sum
+    # (np.sum(a * exp(lambda), axis=-1) is built as the contraction einsum('...d,...d->...', a, exp(lambda)))
+    sums = [f for f in fs if is_call_to(peel(f), 'numpy.sum', 'numpy.einsum')]
     if pows and sums:
         ck.resolved += 1
         sm = peel(sums[0])
-        ax = const_val(call_arg(sm, 1, 'axis'))
-        inner = call_arg(sm, 0)
-        ci, fi = product_factors(inner)
+        lp = last_axis_product_sum(sm)
+        if lp is not None:
+            ax = -1
+            fi = [lp[0], lp[1]]
+        else:
+            ax = const_val(call_arg(sm, 1, 'axis')) if is_call_to(sm, 'numpy.sum') else None
+            inner = call_arg(sm, 0)
+            ci, fi = product_factors(inner)
         exps = [f for f in fi if is_call_to(peel(f), 'numpy.exp')]
         ok = ok_c and ax == -1 and len(exps) == 1 and len(fi) == 2
         run.check(ok, 'R-LIN', 'ComplexBingham.norm: 2 pi^D sum_j a_j exp(lambda_j) over the eigenvalue axis', fn.loc(sm.node), '',
